@@ -459,19 +459,23 @@ def write_replay(prop, v):
     return path
 
 
-def cmd_check(prop, tier, seed):
+def cmd_check(prop, tier, seed, only_engines=None, evidence=True):
     t0 = time.time()
     os.makedirs(TMP, exist_ok=True)
     tag = "%s.%s.%d" % (prop, tier, os.getpid())
     plan = plans.plan(prop, tier, seed)
     if plan is None:
         raise SystemExit("no plan for %s" % prop)
+    if only_engines:
+        plan["jobs"] = [j for j in plan["jobs"] if engine_base(j["engine"]) in only_engines]
+        plan["require"] = {}
     engines = sorted({engine_base(j["engine"]) for j in plan["jobs"]})
     build_s = {}
     for e in engines:
         build_s[e] = round(build_engine(e), 1)
     log("[%s/%s] engines built %s, %d job(s), seed %d" % (prop, tier, build_s, len(plan["jobs"]), seed))
     known = [k for k in load_known() if k.get("property") == prop and k.get("status") == "known"]
+    accept = {tuple(x) for x in plan.get("accept_foreign", [])}
     total = {}
     per_job = []
     own, foreign, known_hits, inconclusive = [], [], {}, []
@@ -494,8 +498,14 @@ def cmd_check(prop, tier, seed):
                 v.setdefault("job_args", job["args"])
                 jv += 1
                 if v.get("prop") != prop:
-                    foreign.append(v)
-                    continue
+                    # a rule that belongs to another property by workload class may also express
+                    # this property (listed explicitly in the plan)
+                    if (v.get("prop"), v.get("rule")) in accept and not (v.get("known_sig") or ""):
+                        v["reattributed_from"] = v.get("prop")
+                        v["prop"] = prop
+                    else:
+                        foreign.append(v)
+                        continue
                 sig = v.get("known_sig") or ""
                 match = next((k for k in known if sig and k.get("signature", {}).get("sig") == sig), None)
                 if match is not None:
@@ -572,8 +582,9 @@ def cmd_check(prop, tier, seed):
         ev["coverage"]["programs"] = evaluations
         ev["coverage"]["disagreements_checked"] = len(own)
     os.makedirs(os.path.join(VERIF, "evidence"), exist_ok=True)
-    with open(os.path.join(VERIF, "evidence", "%s.json" % prop), "w") as f:
-        json.dump(ev, f, indent=1)
+    if evidence:
+        with open(os.path.join(VERIF, "evidence", "%s.json" % prop), "w") as f:
+            json.dump(ev, f, indent=1)
     # clean temp files of this run
     for fn in os.listdir(TMP):
         if fn.startswith(tag + "."):
@@ -634,8 +645,10 @@ def main():
     ap.add_argument("prop")
     ap.add_argument("--tier", default=os.environ.get("VERIF_TIER", "quick"), choices=["quick", "thorough"])
     ap.add_argument("--seed", type=int, default=int(os.environ.get("VERIF_SEED", "1")))
+    ap.add_argument("--engines", default=None, help="comma separated subset of engines (self-tests only; the evidence file is not written)")
     a = ap.parse_args()
-    sys.exit(cmd_check(a.prop, a.tier, a.seed))
+    only = set(a.engines.split(",")) if a.engines else None
+    sys.exit(cmd_check(a.prop, a.tier, a.seed, only, evidence=only is None))
 
 
 if __name__ == "__main__":
